@@ -48,10 +48,14 @@ var graphOrder = []string{"direct", "chain", "cycle", "parents", "shared", "deep
 
 // sCatalogue: every expression with <= k leaves over the leaf kinds x graphs x queries, default mode
 // (untyped literal namespaces), without recursion through `not`.
-func sCatalogue(k int, leaves []int) []*Scn {
+func sCatalogue(k int, leaves []int) []*Scn { return sCatalogueOpt(k, leaves, false) }
+
+// withRecNeg also includes permissions that recurse through `!` (no defined meaning, but a check on
+// them must still terminate and release its goroutines)
+func sCatalogueOpt(k int, leaves []int, withRecNeg bool) []*Scn {
 	gs := graphs()
 	var out []*Scn
-	for _, cfg := range cfgCatalogue(k, leaves, 0, false) {
+	for _, cfg := range cfgCatalogueOpt(k, leaves, 0, false, withRecNeg) {
 		for _, gname := range graphOrder {
 			out = append(out, &Scn{Cfg: cfg, Graph: gname, Tuples: gs[gname], Query: tid("o1", "p", "u")})
 			if gname == "shared" {
@@ -64,6 +68,10 @@ func sCatalogue(k int, leaves []int) []*Scn {
 
 // cfgCatalogue: every expression with <= k leaves over the leaf kinds, without recursion through `not`.
 func cfgCatalogue(k int, leaves []int, typed int, strict bool) []*CfgSpec {
+	return cfgCatalogueOpt(k, leaves, typed, strict, false)
+}
+
+func cfgCatalogueOpt(k int, leaves []int, typed int, strict bool, withRecNeg bool) []*CfgSpec {
 	var out []*CfgSpec
 	for n := 1; n <= k; n++ {
 		ref := CfgRef{Leaves: leaves, N: n, Typed: typed, Strict: strict}
@@ -71,7 +79,7 @@ func cfgCatalogue(k int, leaves []int, typed int, strict bool) []*CfgSpec {
 		for i := 0; i < cnt; i++ {
 			ref.Idx = i
 			c := ref.Resolve()
-			if c.Expr.recNeg(false) {
+			if c.Expr.recNeg(false) && !withRecNeg {
 				continue
 			}
 			out = append(out, c)
